@@ -108,7 +108,7 @@ def _interp(ctx):
 # ================================================================ djs_maskinterp
 def _impl_mi(c):
     from pydl.pydlutils.image import djs_maskinterp
-    y = np.array(c['y'], dtype='d').reshape(c['yshape'])
+    y = np.array(c['y'], dtype=c.get('ydtype', 'd')).reshape(c['yshape'])
     mask = np.array(c['mask'], dtype=c.get('mdtype', 'i4')).reshape(c['mshape'])
     x = None if c['xshape'] is None else np.array(c['x'], dtype='d').reshape(c['xshape'])
     y0 = y.copy()
@@ -209,6 +209,10 @@ def _gen_mi(ctx):
                               'mask': [(bits >> k) & 1 for k in range(n)], 'mdtype': 'i4', 'x': None, 'axis': None, 'const': const})
     mk([3], 0, False, False, 'half', mshape=[4], kind='mask-shape')
     mk([3], 0, True, False, 'half', xshape=[2], kind='x-shape')
+    # counts stored in an integer array: the interpolated values are still real numbers (the result is a float array)
+    for c in list(cases):
+        if c['kind'] == 'rand' and len(c['yshape']) == 1 and rng.random() < 0.1:
+            cases.append(dict(c, y=[float(round(v)) for v in c['y']], ydtype=rng.choice(['i8', 'i4', 'i2'])))
     return cases
 
 
@@ -308,7 +312,7 @@ def _maskinterp(ctx, cases=None):
         _oracle_mi(ctx, c, impl)
         # masked values do not influence the result (when a good sample exists on every line)
         if 'ok' in impl and nbad and c['kind'] == 'rand':
-            c2 = dict(c, y=[v if mk == 0 else rng.uniform(-1e6, 1e6) for v, mk in zip(c['y'], c['mask'])])
+            c2 = dict(c, y=[v if mk == 0 else rng.uniform(-1e6, 1e6) for v, mk in zip(c['y'], c['mask'])], ydtype='d')
             shape = c['yshape']
             k = 0 if len(shape) == 1 else len(shape) - 1 - c['axis']
             M = _lines_of(np.array(c['mask']).reshape(shape), k)
